@@ -16,7 +16,7 @@ pub fn def() -> PropDef {
         run_unit,
         replay,
         required_probes: &["Div_Normalize", "Div_EarlyExact", "Div_ExactInLoop", "Div_Inexact", "RoundingTerm"],
-        rule: "seeded pairs (a, b != 0) of 1..2000 digits, any scales and signs: divisors 2^i 5^j with terminating quotients of 1..100+ digits (exactly 99/100/101), quotients with 9..9 / 0..0 / 5 runs straddling digit 100, |a| << |b|, |a| >> |b| (integer part > 100 digits), equal unscaled integers with different scales, unit divisors 1.000; each pair through the 4 ownership forms (identical results required) judged by exact integer inequalities (exact if the true quotient has <= 100 digits, otherwise >= 100 digits, within half an ulp, ties away from zero); primitive forms for all 10 integer types and f32/f64 (both orders, by-reference forms, /=) compared with the same division on the converted decimals, +-2 exact half; the zero-divisor matrix (every integer-typed and decimal-typed divisor form, zero and non-zero numerators, all /= forms) must panic. distinct = distinct case tuples; non-trivial = true quotient does not terminate within 100 digits (rounding decides the last digit)",
+        rule: "exhaustive small scope: every quotient of na*10^-sa by nb*10^-sb with |na| <= 200, 1 <= |nb| <= 60, scales 0..1; then seeded pairs (a, b != 0) of 1..2000 digits, any scales and signs: divisors 2^i 5^j with terminating quotients of 1..100+ digits (exactly 99/100/101), quotients with 9..9 / 0..0 / 5 runs straddling digit 100, |a| << |b|, |a| >> |b| (integer part > 100 digits), equal unscaled integers with different scales, unit divisors 1.000; each pair through the 4 ownership forms (identical results required) judged by exact integer inequalities (exact if the true quotient has <= 100 digits, otherwise >= 100 digits, within half an ulp, ties away from zero); primitive forms for all 10 integer types and f32/f64 (both orders, by-reference forms, /=) compared with the same division on the converted decimals, +-2 exact half; the zero-divisor matrix (every integer-typed and decimal-typed divisor form, zero and non-zero numerators, all /= forms) must panic. distinct = distinct case tuples; non-trivial = true quotient does not terminate within 100 digits (rounding decides the last digit)",
     }
 }
 
@@ -24,12 +24,14 @@ fn plan(tier: Tier) -> Vec<Unit> {
     match tier {
         Tier::Quick => {
             let mut v = crate::util::split_budget("pairs", 100_000, 1_000);
+            v.extend(crate::util::split_budget("small", 401, 10));
             v.extend(crate::util::split_budget("prims", 12_000, 300));
             v.extend(crate::util::split_budget("zero", 1_600, 100));
             v
         }
         Tier::Thorough => {
             let mut v = crate::util::split_budget("pairs", 8_000_000, 5_000);
+            v.extend(crate::util::split_budget("small", 401, 5));
             v.extend(crate::util::split_budget("prims", 1_000_000, 2_000));
             v.extend(crate::util::split_budget("zero", 60_000, 500));
             v
@@ -351,6 +353,23 @@ fn run_unit(unit: &Unit, r: &mut Rng, ctx: &mut Ctx) {
                 let (a, b) = gen_pair(r, unit.start + i);
                 let case = Case::new("pair").push(a.tok()).push(b.tok());
                 check_case(&case, ctx);
+            }
+        }
+        "small" => {
+            // exhaustive: a = na*10^-sa, b = nb*10^-sb with |na| <= 200, 1 <= |nb| <= 60, sa, sb in 0..=1
+            for idx in unit.start..unit.start + unit.count {
+                let na = idx as i64 - 200;
+                for nb in (-60i64..=60).filter(|x| *x != 0) {
+                    for sa in 0i64..=1 {
+                        for sb in 0i64..=1 {
+                            let case = Case::new("pair").push(Dec::new(BigInt::from(na), sa).tok()).push(Dec::new(BigInt::from(nb), sb).tok());
+                            check_case(&case, ctx);
+                        }
+                    }
+                }
+            }
+            if unit.start == 0 {
+                ctx.exhaustive_notes.push("C08 small scope: every a = na*10^-sa, b = nb*10^-sb with |na| <= 200, 1 <= |nb| <= 60, scales 0..1 (192 480 quotients x 4 ownership forms)".into());
             }
         }
         "prims" => {
